@@ -172,6 +172,13 @@ func (h *srvHandler) Handle(ctx context.Context, req packet.Request) (packet.Res
 		}
 		return nil, packet.NewErrorParseTCP(code, "handler refuses")
 	case HTypedErrFull:
+		if code%2 == 1 {
+			// a gateway-style handler: the typed error it returns is the parse error of another frame (an embedded or
+			// upstream one) and carries that frame's transaction id, unit and function, wrapped once; the reply must still be
+			// addressed to the request (wave 14)
+			foreign := &packet.ErrorParseTCP{Message: "upstream frame refused", Packet: packet.ErrorResponseTCP{TransactionID: tid ^ 0x5555, UnitID: unit + 0x66, Function: (req.FunctionCode() % 6) + 1, Code: code}}
+			return nil, fmt.Errorf("forwarding failed: %w", foreign)
+		}
 		return nil, &packet.ErrorParseTCP{Message: "handler refuses", Packet: packet.ErrorResponseTCP{TransactionID: tid, UnitID: unit, Function: req.FunctionCode(), Code: code}}
 	case HPlainErr:
 		return nil, errors.New("handler failed: database is down")
